@@ -50,7 +50,7 @@ RULE = (
     "slice.indices self-test; file/page lookup for all 1-3 files of 1-3 pages; legacy frame ranges + seeded random programs of 1-4 "
     "operations (frame slice, integer, crop_by_pixels, tuple index, time-string/timestamp slice, define_tether) on "
     "grey/RGB/two-colour, 1-3 file, constant/variable-exposure, legacy-export stacks of up to 60 frames; commuted "
-    "crop/slice pairs; horizontal-tether to_kymo (incl. the F9 class: left tether end cropped away); a malformed stream (zero step, 4-tuples, spatial steps, reversed "
+    "crop/slice pairs; horizontal-tether to_kymo (incl. the F20 class: left tether end cropped away); a malformed stream (zero step, 4-tuples, spatial steps, reversed "
     "ROIs). Non-trivial: the program selects a proper non-empty subset of frames or pixels, or raises, or defines a "
     "tether."
 )
@@ -1099,7 +1099,7 @@ def cases(tier, rng):
             prog.append(["c", None, sub.choice([None, cw - 1]) if cw - 1 > x1 + 2 else None, None, None])
         prog.append(["k", sub.choice([0, 0, 1, 1, 2])])
         yield prog_case("kymo", spec, prog, subseed=i)
-    # tether whose left end is cut off by a later crop (finding F9: the negative x wraps around in Roi.crop)
+    # tether whose left end is cut off by a later crop (finding F20: the negative x wraps around in Roi.crop)
     K2 = 40 if quick else 400
     r = rng.fork("c07-kymo-outside")
     for i in range(K2):
